@@ -36,6 +36,24 @@ CAPS = ('finite', 'sized', 'indexable', 'listable', 'items', 'bykey', 'copyable'
         'ordered', 'keysok')
 
 
+def is_poisoned(v):
+    """Does the term contain an example whose evaluation raises (a 'mapguard'
+    stage marked it)?"""
+    if isinstance(v, tuple) and len(v) == 2 and v[0] == 'POISON':
+        return True
+    if isinstance(v, (list, tuple)):
+        return any(is_poisoned(x) for x in v)
+    return False
+
+
+# operations that evaluate examples (user functions on them, or the examples
+# themselves) - when they are built or whenever they are iterated - and after
+# which no selection can leave an example out again
+EVALUATING = ('filter', 'efilter', 'sort', 'groupby', 'ecache', 'catchfilter', 'catch',
+              'prefetch1', 'prefetcht', 'parmap', 'unbatch', 'cycle', 'apply_lazy',
+              'reshuffle', 'localshuffle', 'mapfail')
+
+
 class M:
     def __init__(self, entries, finite=True, sized=True, indexable=True,
                  listable=False, items=False, bykey=False, copyable=True,
@@ -80,6 +98,10 @@ class M:
     @property
     def n(self):
         return len(self.entries)
+
+    @property
+    def poisoned(self):
+        return any(is_poisoned(v) for v in self.values)
 
     def caps(self):
         d = {c: getattr(self, c) for c in CAPS}
@@ -424,6 +446,13 @@ def _apply_op(m, op, operand=None):
         return m.clone(sized=False, indexable=False, listable=False,
                        items=(m.items and m.listable and m.labelstate == 'unique'
                               and m.bykey))
+    if k == 'mapguard':
+        # a map whose function raises for the example with source id op[1] and
+        # passes every other example on unchanged: the pipeline is well defined
+        # iff a later selection leaves that example out before anything
+        # evaluates it (evaluation is demand-driven)
+        return m.clone(entries=[(a, ('POISON', v) if op[1] in _ids(v) else v)
+                                for a, v in m.entries], batched=False)
     if k == 'catchfilter':
         # .map(raise FilterException for ids divisible by mod).catch(): the
         # examples that raise are dropped, everything else as for catch
@@ -463,6 +492,11 @@ def apply(m, op, operand=None):
     indexable itself, its frozen copy is) - this is what catch() and the pool
     prefetch need."""
     k = op[0]
+    if (k in EVALUATING or (k == 'batch' and op[2])) and m.poisoned:
+        # (batch(drop_last=True) has to evaluate the tail it drops)
+        # the stage would evaluate an example that raises: not a pipeline whose
+        # result the reference defines
+        raise Skip
     fi = getattr(m, 'findexable', m.indexable)
     if k in ('catch', 'prefetcht') and fi and not m.indexable:
         # judge the operation on the frozen view of its input
@@ -504,6 +538,21 @@ def concat3_operands(kind, form='method'):
     return e, l
 
 
+def _ids(t):
+    out = []
+
+    def rec(x):
+        if isinstance(x, bool):
+            return
+        if isinstance(x, int):
+            out.append(x)
+        elif isinstance(x, (list, tuple)):
+            for y in x:
+                rec(y)
+    rec(t)
+    return out
+
+
 def run(prog, upto=None):
     """prog = {'src': spec, 'ops': [op, ...]}; a binary op carries its operand
     as op[1]: 'self', 'selfmap' or a nested program.  Returns the model."""
@@ -524,6 +573,8 @@ def run(prog, upto=None):
         elif op[0] in NARY:
             operand = nary_operands(m, op)
         m = apply(m, op, operand)
+    if upto is None and m.poisoned:
+        raise Skip            # iterating it would raise: no reference result
     return m
 
 
